@@ -24,15 +24,39 @@ using muscle::ConstQueryFilterRef;
 enum { RICH_WHAT = l1::PAYLOAD_WHAT };
 
 // The payload of every node in the C07 world: one field of every type a leaf QueryFilter can test.
-static inline MessageRef Rich(int32_t v)
+static inline MessageRef MakeRich(int32_t v)
 {
    MessageRef m = l1::NewMsg(RICH_WHAT); Message & M = *m();
    (void) M.AddInt32("v", v); (void) M.AddString("s", "ab"); (void) M.AddBool("b", true); (void) M.AddDouble("d", 1.5); (void) M.AddFloat("f", 2.5f);
    (void) M.AddInt64("i64", ((int64_t)1) << 40); (void) M.AddInt16("i16", 7); (void) M.AddInt8("i8", 3);
    (void) M.AddPoint("pt", muscle::Point(1.0f, 2.0f)); (void) M.AddRect("r", muscle::Rect(1.0f, 2.0f, 3.0f, 4.0f));
    MessageRef sub = l1::NewMsg(5); (void) sub()->AddInt32("f", 1); (void) M.AddMessage("m", sub);
-   const uint8_t raw[2] = { 1, 2 }; (void) M.AddData("raw", muscle::B_RAW_TYPE, raw, 2);
+   const uint8_t raw[2] = { 1, 2 }; (void) M.AddData("raw", B_RAW_TYPE, raw, 2);
    return m;
+}
+// Payload objects are built once per process and shared by reference (the server stores and forwards payloads by reference and
+// never edits them; RichIntact() re-checks that at the end of every history).
+struct RichCache { std::map<int32_t, MessageRef> msg; std::map<int32_t, std::string> flat; };
+static inline RichCache & TheRichCache() { static RichCache c; return c; }
+static inline MessageRef Rich(int32_t v)
+{
+   RichCache & c = TheRichCache(); MessageRef & r = c.msg[v];
+   if (r() == NULL) { r = MakeRich(v); c.flat[v] = l1::Flat(r); }
+   return r;
+}
+// >= 0 when m IS one of the shared payload objects (identity, not content)
+static inline int32_t RichIdOf(const Message * m)
+{
+   RichCache & c = TheRichCache();
+   for (std::map<int32_t, MessageRef>::iterator it = c.msg.begin(); it != c.msg.end(); ++it) if (it->second() == m) return it->first;
+   return -1;
+}
+static inline const std::string & RichFlat(int32_t v) { (void) Rich(v); return TheRichCache().flat[v]; }
+static inline bool RichIntact()
+{
+   RichCache & c = TheRichCache();
+   for (std::map<int32_t, MessageRef>::iterator it = c.msg.begin(); it != c.msg.end(); ++it) if (l1::Flat(it->second) != c.flat[it->first]) return false;
+   return true;
 }
 
 // ------------------------------------------------------------------------------------------------ what codes
@@ -522,18 +546,31 @@ struct Alphabet {
       if (s.key) n += std::string(" ") + KeyName(s.key); if (s.filt) n += std::string(" ") + FiltName(s.filt); if (s.extra) n += std::string(" ") + ExtraName(s.extra);
       return n;
    }
-   // classification used in violation keys: <WHAT of the outermost Message, or BATCH+inner>:<filter class>
+   // Filter class used in violation keys, judged by BEHAVIOUR on the payloads that sit in the queue (evaluated without a node context,
+   // as the JETTISON handlers do): the first archive of the shape is re-created by the real factory and applied to Rich(1..9).
+   static const char * FilterBehaviour(int f)
+   {
+      static std::vector<const char *> memo;
+      if (memo.empty()) {
+         memo.resize(NUM_FILTSHAPES, "no-filter");
+         for (int k = 1; k < NUM_FILTSHAPES; k++) {
+            std::vector<MessageRef> a = FilterArchives(k);
+            muscle::QueryFilterRef q; if (!a.empty()) q = muscle::GetGlobalQueryFilterFactory()()->CreateQueryFilter(*a[0]());
+            if (q() == NULL) { memo[k] = "invalid-filter"; continue; }
+            int yes = 0; for (int v = 1; v <= 9; v++) { muscle::ConstMessageRef p = Rich(v); if (q()->Matches(p, NULL)) yes++; }
+            memo[k] = (yes == 9) ? "accepting-filter" : (yes == 0) ? "rejecting-filter" : "mixed-filter";
+         }
+      }
+      return memo[f];
+   }
+   // classification used in violation keys: <WHAT of the outermost Message, or BATCH+first inner command>:<filter class>
    std::string ClassOf(int c) const
    {
-      if (IsGeneric(c)) {
-         const char fc = FiltClass(genShape[c].filt);
-         const char * ft = (fc == '-') ? "no-filter" : (fc == 'A') ? "accepting-filter" : (fc == 'R') ? "rejecting-filter" : (fc == 'M') ? "accepting+rejecting-filters" : (fc == 'N') ? "node-dependent-filter" : (fc == 'H') ? "hostile-filter-archive" : "wrong-typed-filter-field";
-         return WhatName(genWhat[c]) + ":" + ft;
-      }
+      if (IsGeneric(c)) return WhatName(genWhat[c]) + ":" + FilterBehaviour(genShape[c].filt);
       std::string n; (void) BuildSpecial(c - (int)genWhat.size(), &n, NULL);
       std::string w = n.substr(0, n.find(' '));
       if (w == "BATCH") { const size_t b = n.find('['); if (b != std::string::npos) { std::string inner = n.substr(b + 1); inner = inner.substr(0, inner.find_first_of(" ,]")); if (!inner.empty()) w += "+" + inner; } }
-      const char * ft = (n.find("filter(A)") != std::string::npos || n.find("(A)") != std::string::npos) ? "accepting-filter" : (n.find("(R)") != std::string::npos) ? "rejecting-filter" : (n.find("filter") != std::string::npos) ? "other-filter" : "no-filter";
+      const char * ft = (n.find("(A)") != std::string::npos) ? "accepting-filter" : (n.find("(R)") != std::string::npos) ? "rejecting-filter" : (n.find("filter") != std::string::npos) ? "other-filter" : "no-filter";
       return w + ":" + ft;
    }
 };
